@@ -1221,6 +1221,14 @@ class Host(utils.EventEmitter):
         return self.on_command_processed(event)
 
     def on_hci_command_status_event(self, event: hci.HCI_Command_Status_Event):
+        if event.command_opcode == 0:
+            # Like a Command Complete event without a command: this is used just for
+            # the Num_HCI_Command_Packets field, it is not a response to a command
+            logger.debug('no-command event for flow control')
+            if event.num_hci_command_packets and self.command_semaphore.locked():
+                self.command_semaphore.release()
+            return
+
         return self.on_command_processed(event)
 
     def on_hci_number_of_completed_packets_event(
